@@ -5,7 +5,7 @@ D=$1
 export GOPROXY=off GOSUMDB=off GOTOOLCHAIN=local
 W=$(mktemp -d /tmp/vseed-XXXXXX)
 git -C /repo worktree add --detach "$W" HEAD >/dev/null 2>&1 || exit 2
-trap 'git -C /repo worktree remove --force "$W" >/dev/null 2>&1; rm -rf "$W"' EXIT
+trap 'git -C /repo worktree remove --force "$W" >/dev/null 2>&1; rm -rf "$W" "$W.clean.log" "$W.mut.log"' EXIT
 cd "$W"
 DEMO=$(ls "$D"/*_test.go | head -1)
 DEST=$(grep -m1 -oE '(Place|place|Copy|copy)[^\n]*' "$DEMO" | head -1)
@@ -13,10 +13,10 @@ PKGDIR=${2:-.}
 cp "$DEMO" "$PKGDIR/zz_seeded_demo_test.go"
 NAME=$(grep -oE '^func (Test[A-Za-z0-9_]+)' "$DEMO" | awk '{print $2}' | paste -sd'|')
 echo "demo tests: $NAME in $PKGDIR"
-go test -count=1 -timeout 300s -run "^($NAME)\$" ./$PKGDIR > /tmp/vseed.clean.log 2>&1; echo "clean demo exit=$?"
+go test -count=1 -timeout 300s -run "^($NAME)\$" ./$PKGDIR > $W.clean.log 2>&1; echo "clean demo exit=$?"
 git apply "$D/patch.diff" || { echo "patch does not apply to HEAD"; exit 2; }
 go build ./... || { echo "does not compile"; exit 2; }
-go test -count=1 -timeout 300s -run "^($NAME)\$" ./$PKGDIR > /tmp/vseed.mut.log 2>&1; echo "mutated demo exit=$?"
+go test -count=1 -timeout 300s -run "^($NAME)\$" ./$PKGDIR > $W.mut.log 2>&1; echo "mutated demo exit=$?"
 rm "$PKGDIR/zz_seeded_demo_test.go"
 for i in 1 2; do go test -count=1 -timeout 120s ./... 2>&1 | grep -E "^(--- FAIL|FAIL|panic: test timed)" | tr '\n' ' '; echo "suite run $i done"; done
 (cd schema && go test -count=1 ./... | tail -1)
